@@ -148,7 +148,32 @@ class _MC:
 
 NAV = ["getitem_ds", "getitem_grp", "get", "values", "items", "visititems", "parent_of_child", "parent", "file",
        "restrict_noop", "query", "create_group", "require_group", "create_dataset", "require_dataset", "nested_path",
-       "iter_then_getitem", "child_of_child", "absolute_path"]
+       "iter_then_getitem", "child_of_child", "absolute_path", "ds_direct", "ds_child_upward"]
+
+
+def _upward_ok(x, ro, lo, so, mc):
+    """The protocol's upward members (`parent`, `file`; H5NodeLike) applied to a derived node: under
+    local_only `file` is refused and `parent` stays a restricted wrapper inside the local root."""
+    lo = lo or x.acl[NodeAcl.local_only]  # (a derived node may carry more restrictions than its origin)
+    for attr in ("parent", "file"):
+        try:
+            r = getattr(x, attr)
+        except (UnsupportedOperationError, ValueError):
+            if not lo:
+                note(("upward member refused without local_only", attr, x.name))
+                return False
+            continue
+        if attr == "file":
+            if lo or r is not mc:
+                note(("file of a derived node", x.name, type(r).__name__))
+                return False
+        else:
+            if not isinstance(r, MetadorNode) or not superset(r, ro, lo, so):
+                note(("parent of a derived node", x.name, type(r).__name__))
+                return False
+            if lo and not r.name.startswith("/g"):
+                return False
+    return True
 
 
 def nav(ro: bool, lo: bool, so: bool, r2: bool, l2: bool, s2: bool) -> bool:
@@ -158,11 +183,16 @@ def nav(ro: bool, lo: bool, so: bool, r2: bool, l2: bool, s2: bool) -> bool:
     # SEL prim: navigation primitive; the node itself is `g` (restricted with ro/lo/so)
     prim = SEL.get("prim", "getitem_ds")
     root, g, d, h, log = mkraw()
-    g.create_group = lambda p: (log.append("create_group"), RawGrp("/g/" + p))[1]
-    g.require_group = lambda p: (log.append("require_group"), RawGrp("/g/" + p))[1]
-    g.create_dataset = lambda p, *a, **k: (log.append("create_dataset"), RDs("/g/" + p, log))[1]
-    g.require_dataset = lambda p, *a, **k: (log.append("require_dataset"), RDs("/g/" + p, log))[1]
-    n = MetadorGroup(_MC(lambda node: []), g, read_only=ro, local_only=lo, skel_only=so)
+    def _child(o):
+        o.parent = g
+        return o
+
+    g.create_group = lambda p: (log.append("create_group"), _child(RawGrp("/g/" + p)))[1]
+    g.require_group = lambda p: (log.append("require_group"), _child(RawGrp("/g/" + p)))[1]
+    g.create_dataset = lambda p, *a, **k: (log.append("create_dataset"), _child(RDs("/g/" + p, log)))[1]
+    g.require_dataset = lambda p, *a, **k: (log.append("require_dataset"), _child(RDs("/g/" + p, log)))[1]
+    mc = _MC(lambda node: [])
+    n = MetadorGroup(mc, g, read_only=ro, local_only=lo, skel_only=so)
     derived = []
     reach()
     try:
@@ -217,6 +247,32 @@ def nav(ro: bool, lo: bool, so: bool, r2: bool, l2: bool, s2: bool) -> bool:
                 return True
             derived.append(n["/g/d"])
             return False  # absolute paths are refused on local_only nodes
+        elif prim == "ds_direct":
+            # a dataset wrapper restricted itself (it is its own local root)
+            x = MetadorDataset(mc, d, read_only=ro, local_only=lo, skel_only=so)
+            # (restrict() works in place and returns the node: check before and after it)
+            for stage, ylo in ((0, lo), (1, lo or l2)):
+                if stage == 1:
+                    x = x.restrict(read_only=r2, local_only=l2, skel_only=s2)
+                    if not superset(x, ro or r2, lo or l2, so or s2):
+                        return False
+                for attr in ("parent", "file"):
+                    try:
+                        r = getattr(x, attr)
+                    except (UnsupportedOperationError, ValueError):
+                        if not ylo:
+                            return False
+                        continue
+                    if ylo:
+                        note(("local_only dataset yields", attr, type(r).__name__))
+                        return False
+                    if attr == "file" and r is not mc:
+                        return False
+                    if attr == "parent" and not (isinstance(r, MetadorNode) and superset(r, ro, lo, so)):
+                        return False
+            return True
+        elif prim == "ds_child_upward":
+            derived += [n["d"], n["h"]["e"], n.get("d")]
     except (UnsupportedOperationError, ValueError):
         if prim in ("parent", "file", "absolute_path"):
             return bool(lo)
@@ -229,6 +285,8 @@ def nav(ro: bool, lo: bool, so: bool, r2: bool, l2: bool, s2: bool) -> bool:
             return False
         if lo and not x.name.startswith("/g"):
             return False  # nothing above the local root
+        if not _upward_ok(x, ro, lo, so, mc):
+            return False
     return True
 
 
